@@ -245,7 +245,7 @@ def support_function_capsule(
     s = math.sqrt(local_dir[0] * local_dir[0] + local_dir[1] * local_dir[1]
                   + local_dir[2] * local_dir[2])
     if s == 0.0:
-        local_vertex = np.array([radius, 0, 0])
+        local_vertex = np.array([radius, 0.0, 0.0])
     else:
         local_vertex = local_dir * (radius / s)
     if local_dir[2] > 0.0:
